@@ -122,6 +122,7 @@ func (d *MsgPipeline) Start(ctx context.Context, msgMeta *module.MsgMetadata, ma
 		d:                  d,
 		rcptModifiersState: make(map[*rcptBlock]module.ModifierState),
 		deliveries:         make(map[module.DeliveryTarget]*delivery),
+		originalRcpts:      make(map[string]string),
 		msgMeta:            msgMeta,
 		log:                target.DeliveryLogger(d.Log, msgMeta),
 	}
@@ -275,6 +276,12 @@ type msgpipelineDelivery struct {
 	deliveries  map[module.DeliveryTarget]*delivery
 	msgMeta     *module.MsgMetadata
 	checkRunner *checkRunner
+
+	// Recipient rewrites done by this pipeline object (effective address ->
+	// address passed to AddRcpt), used to report statuses under the latter.
+	// msgMeta.OriginalRcpts can not be used for that: it is shared with nested
+	// pipelines (reroute), each of which must undo only its own rewrites.
+	originalRcpts map[string]string
 }
 
 func (dd *msgpipelineDelivery) AddRcpt(ctx context.Context, to string, opts smtp.RcptOptions) error {
@@ -347,6 +354,7 @@ func (dd *msgpipelineDelivery) AddRcpt(ctx context.Context, to string, opts smtp
 
 			if originalTo != to {
 				dd.msgMeta.OriginalRcpts[to] = originalTo
+				dd.originalRcpts[to] = originalTo
 			}
 
 			for _, tgt := range rcptBlock.targets {
@@ -508,7 +516,7 @@ func (dd *msgpipelineDelivery) BodyNonAtomic(ctx context.Context, c module.Statu
 		partDelivery, ok := delivery.Delivery.(module.PartialDelivery)
 		if ok {
 			partDelivery.BodyNonAtomic(ctx, statusCollector{
-				originalRcpts: dd.msgMeta.OriginalRcpts,
+				originalRcpts: dd.originalRcpts,
 				wrapped:       c,
 			}, header, body)
 			continue
